@@ -168,16 +168,16 @@ Proof. unfold has_key. cbn. destruct (String.eqb k0 k); reflexivity. Qed.
 Lemma obj_match_facts chk omit : forall fields fs ms, obj_match chk omit fields fs ms = true ->
   (forall key x, In (key, x) ms -> exists f fv, In f fields /\ key = f_key f /\ chk f fv x = true) /\
   (forall f, In f fields ->
-     (exists fv, omit = true /\ is_none_val fv = true /\ chk f fv JNull = true) \/ has_key ms (f_key f) = true).
+     (exists fv, omit f fv = true /\ chk f fv JNull = true) \/ has_key ms (f_key f) = true).
 Proof.
   induction fields as [|f rf IH]; intros fs ms H.
   - destruct fs; [|discriminate]. cbn in H. destruct ms; [|discriminate]. split; [intros ? ? []|intros ? []].
   - destruct fs as [|[nm fv] rfs]; [discriminate|]. cbn [obj_match] in H.
     apply andb_true_iff in H. destruct H as [_ H].
-    destruct (omit && is_none_val fv) eqn:Ed.
+    destruct (omit f fv) eqn:Ed.
     + apply andb_true_iff in H. destruct H as [Hc H]. destruct (IH _ _ H) as [M F]. split.
       * intros key x Hin. destruct (M key x Hin) as (f' & fv' & Hf & Hk & Hx). exists f', fv'. split; [right|]; auto.
-      * intros f' [<-|Hin]; [|auto]. left. apply andb_true_iff in Ed. destruct Ed as [-> Hn]. eauto.
+      * intros f' [<-|Hin]; [|auto]. left. eauto.
     + destruct ms as [|[key x] rms]; [discriminate|].
       apply andb_true_iff in H. destruct H as [H Hr]. apply andb_true_iff in H. destruct H as [Hk Hc].
       apply String.eqb_eq in Hk. destruct (IH _ _ Hr) as [M F]. split.
@@ -279,7 +279,7 @@ Section Sound.
   (* a dataclass object schema accepts the members emitted for an instance *)
   Lemma data_sound n (IH: sound_at n) mf m' k (Hk: 2 * n + 1 <= k) d fs ms ps :
     obj_match (fun f fv x => enc_ok n E (nt_mode (c_ntd d) (f_ntover f)) (c_ntd d) (f_ty f) fv x)
-              (c_omit d) (c_fields d) fs ms = true ->
+              (fun f fv => c_omit d && nullable (f_ty f) && is_none_val fv) (c_fields d) fs ms = true ->
     omap (fun f => match schema_f E dl ar (nt_mode (c_ntd d) (f_ntover f)) mf (f_ty f) with
                    | Some s => Some (f_key f, s) | None => None end) (c_fields d) = Some ps ->
     forallb (fun f => f_init f && ty_ok m' E (nt_mode (c_ntd d) (f_ntover f)) (c_ntd d) (f_ty f)
@@ -307,7 +307,8 @@ Section Sound.
     - assert (Hr: forallb (has_key ms) (map f_key (filter (fun f => negb (f_has_default f)) (c_fields d))) = true).
       { apply forallb_forall. intros key Hin. apply in_map_iff in Hin. destruct Hin as (f & <- & Hf).
         apply filter_In in Hf. destruct Hf as [Hf Hd]. apply negb_true_iff in Hd.
-        destruct (F f Hf) as [(fv & Hom & Hnv & Hc)|Hh]; [|exact Hh]. exfalso.
+        destruct (F f Hf) as [(fv & Hdrop & Hc)|Hh]; [|exact Hh]. exfalso.
+        apply andb_true_iff in Hdrop. destruct Hdrop as [Hdrop Hnv]. apply andb_true_iff in Hdrop. destruct Hdrop as [Hom _].
         pose proof (forallb_In _ _ _ Hok Hf) as H0. apply andb_true_iff in H0. destruct H0 as [_ H0].
         rewrite Hom, Hd in H0. cbn in H0.
         rewrite (never_none_enc E _ _ _ _ _ _ JNull H0 Hnv) in Hc. discriminate. }
